@@ -969,6 +969,20 @@ class Prover:
                     continue
             if match is None:
                 continue
+            if not isinstance(out, Exception) and match.status == "ok":
+                # the real run is itself a test of the property on this input: a failed obligation that
+                # the symbolic route has not already reported on this path is a counterexample on the
+                # real code (however it was found)
+                bad = self._real_failure(out)
+                if bad is not None:
+                    k_, why = bad
+                    pname = name if len(live) == 1 else "%s#p%d" % (name, live.index(match))
+                    tag = "/%s/%s" % (pname, k_)
+                    if not any(r["obligation"].endswith(tag) and r["verdict"] == "sat" for r in self.records):
+                        self.rec("%s/%s" % (pname, k_), "sat", replay=dict(reproduced=True, key=k_, detail=why, seed=hash((self.seed, name, k)) & 0xFFFF), model=jsonable(env), via="real-run-during-validation")
+                        return
+                    done += 1
+                    continue
             if isinstance(out, Exception) or match.status == "raise":
                 if isinstance(out, Exception) != (match.status == "raise"):
                     self.rec(name + "/validate", "error", detail="shim and real code disagree on raising: real=%r shim=%s" % (out, match.status), env=jsonable(env))
@@ -1000,6 +1014,30 @@ class Prover:
                         return
             done += 1
         self.validated += done
+
+    def _real_failure(self, out):
+        """first failed obligation of a real-backend outcome, or None"""
+        for k, (got, want) in out.eq.items():
+            try:
+                d, why = num_differs(got, want, nan_equal=k in getattr(out, "same_keys", ()))
+            except TypeError:
+                continue
+            if d:
+                return k, why
+        for k, c in out.claims.items():
+            try:
+                if not bool(c):
+                    return k, "claim false on the real code"
+            except Exception:
+                continue
+        for k, a in out.finite.items():
+            try:
+                vals = [_fl(x) for x in flat(a)]
+            except TypeError:
+                continue
+            if any(math.isnan(v) or math.isinf(v) for v in vals):
+                return k, "non-finite value in real result"
+        return None
 
     # ---- summary ----------------------------------------------------------------
     def summary(self):
